@@ -57,6 +57,10 @@ def build_script(c):
     if kind == 'gss':
         classes = {'db': 5, 'gss': 3}
     k = gen.random_kex(rng, names, classes, (2, 7))
+    if kind == 'gss':
+        # several instantiations of the same wildcard family (one per GSS mechanism), as real GSS servers advertise
+        for fam in ('gss-group1-sha1-*', 'gss-gex-sha1-*', 'gss-group14-sha256-*'):
+            k['kex'] += [audit.gss_instance(rng, fam) for _ in range(3)]
     if kind == 'clean':
         k = audit.sym_kex(['sntrup761x25519-sha512@openssh.com', 'kex-strict-s-v00@openssh.com'], ['ssh-ed25519'], ['aes256-gcm@openssh.com'], ['hmac-sha2-512-etm@openssh.com'])
     if kind == 'terrapin':
@@ -70,7 +74,10 @@ def build_script(c):
         hk = gen.hostkeys_for(k['key'], {t: {'type': 'rsa', 'bits': bits} for t in ('ssh-rsa', 'rsa-sha2-512')})
         hk['ssh-rsa-cert-v01@openssh.com'] = {'type': 'rsa-cert', 'bits': bits, 'ca': {'type': 'rsa', 'bits': rng.choice([1024, 2048, 4096])}}
         gex = {'sizes': [rng.choice([1024, 2048, 3072])], 'style': 'strict'}
-    return {'banner': 'SSH-2.0-' + rng.choice(['OpenSSH_8.4p1 Debian-5', 'dropbear_2020.81', 'libssh_0.9.6', 'Unknown_1.0']), 'kex': k, 'hostkeys': hk, 'gex': gex}
+    sw = rng.choice(['OpenSSH_8.4p1 Debian-5', 'dropbear_2020.81', 'libssh_0.9.6', 'Unknown_1.0'])
+    if kind == 'gss':
+        sw = 'OpenSSH_8.4p1 Debian-5'   # recognised software, so that the recommendation section (whose order must not depend on hashing) is populated
+    return {'banner': 'SSH-2.0-' + sw, 'kex': k, 'hostkeys': hk, 'gex': gex}
 
 
 def level_of(raw):
